@@ -11,6 +11,10 @@ TECH = ('explicit TLA+ specification model-checked with TLC; TLC-emitted '
 
 # property id -> (design_ref, level text, level note, technique suffix)
 CLAIMED = {
+    'C19': ('5/C19, 3.8',
+            'spec/Icartt.tla states the FFI-1001 line layout as a writer automaton (role and token count of every line), the reader role assignment from line index and counts, and the header arithmetic; Icartt_MC checks declared = actual counts and reader/writer role agreement for every structure (1-4 variables, 0-4 comment attributes, 1-4 records) and emits them; for each structure generated files (names, units, missing codes -999/-9999/-99999/-888, masks, magnitudes 1e-30..1e25, negative, zero; plus larger random structures) are written with ncf2ffi1001, tokenised, read with ffi1001() and with pncopen() auto-detection, written and read a second time; Icartt_Trace checks the layout of the text, the declared header/variable counts, and equality of names, order, units, missing codes, masks and %.6e values, and that the second cycle is a fixpoint.',
+            'Trusted: line tokenisation (split on commas), %.6e rendering as the seven-significant-digit comparison. Comment attribute values are single-line strings (a value containing a newline breaks the declared header count: not exercised, noted in DESIGN.md). LLOD/ULOD flag handling not covered.',
+            'structure enumeration + write/read traces validated'),
     'C20': ('5/C20, 3.8',
             'spec/ArlPack.tla transcribes the packing definition in exact integers (exponent from the largest neighbour difference, byte = trunc(diff/step + 127.5) saturating, running reconstruction); ArlPack_MC checks NoWrap, FirstExact and that the one-step bound fails only at cut-off bytes (and, with the bound as invariant, exhibits the witness of known finding C20_K1) on every field of a lattice finer than the quantisation step with differences around 2**9, and emits the fields; pack2d/unpack are run on each field and on random larger fields (other exponents, constants, up to 4x6) scaled by 2**s, s in {0,-20,20,-100,60}; ArlPack_Trace requires bytes, exponent, VAR1, checksum (mod 255) and unpack(pack(x)) to equal the model and evaluates the bound.',
             'Trusted: integer fields times 2**s are exact in float32, so code and model must agree to the byte. Not decided: arbitrary float32 fields (rounding of LOG near powers of two, accumulated error on long rows), exponents below 7, and the packed-bit FILE layout (index record, variable definitions, arlpackedbit reader / writearlpackedbit) - second sentence of the property.',
